@@ -24,6 +24,7 @@ import OFV.Proofs.C06Boson
 import OFV.Proofs.C06BosonCut
 import OFV.Model.C06Expect
 import OFV.Proofs.C06Expect
+import OFV.Proofs.C06MatvecFull
 
 namespace OFV.C06
 open OFV OFV.Spec OFV.Spec.C06 OFV.Model OFV.Model.C06 OFV.Proofs.C06
@@ -468,5 +469,68 @@ theorem eigenspectrum_route_sound (tol : Rat) (htol : 0 < tol) (M : Mat)
 example : isHermitianMat GQ.eqTol ⟨2, 2, [(0, 0, GQ.I), (1, 1, -GQ.I)]⟩ = false ∧
     isHermitianMat GQ.eqTol ⟨2, 2, [(0, 1, GQ.I), (1, 0, -GQ.I)]⟩ = true := by
   refine ⟨by decide +kernel, by decide +kernel⟩
+
+/-! ### `LinearQubitOperator._matvec`, whole operator, matrix form -/
+
+/-- **`matvec_sound`** — the Model function the driver executes against the Spec, for ALL inputs: for every
+QubitOperator `a` whose terms are Pauli strings on qubits `< n`, every vector `x` of length `2^n` and
+every basis state `u < 2^n`,
+`matvec(a, x)[beIndex n u] = Σ_{s < 2^n} ⟨u|A|s⟩ · x[beIndex n s]`, `⟨u|A|s⟩ = Σ_terms c · ⟨u|t|s⟩`
+(`Spec.C07.ampP`) — exactly the matrix elements `qubit_sparse_sound` proves for
+`qubit_operator_sparse`; hence `LinearQubitOperator(a) · x = get_sparse_operator(a) · x` entry by entry. -/
+theorem matvec_sound (n : Nat) (a : List (List (Nat × Nat) × GQ)) (x : List GQ) (hx : x.length = 2 ^ n)
+    (ha : ∀ e ∈ a, e.1.Pairwise (fun f g => f.1 < g.1) ∧ ∀ f ∈ e.1, f.1 < n ∧ 1 ≤ f.2 ∧ f.2 ≤ 3)
+    (u : Nat) (hu : u < 2 ^ n) :
+    (matvec a x).getD (beIndex n u) 0 =
+      sumTo (2 ^ n) (fun s =>
+        (a.foldl (fun acc e => acc + e.2 * Spec.C07.ampP e.1 s u) 0) * x.getD (beIndex n s) 0) :=
+  matvec_matrix n a x hx ha u hu
+
+/-- the linear operator and the sparse matrix agree: with `L` the entry list of
+`qubit_operator_sparse(a, n)`, `matvec(a, x)[r] = Σ_s L[r, beIndex n s] · x[beIndex n s]` for every row
+`r = beIndex n u`. -/
+theorem matvec_eq_sparse_matvec (n : Nat) (a : List (List (Nat × Nat) × GQ)) (x : List GQ) (hx : x.length = 2 ^ n)
+    (hc : countQubitsQubit a ≤ n)
+    (ha : ∀ e ∈ a, e.1.Pairwise (fun f g => f.1 < g.1) ∧ ∀ f ∈ e.1, f.1 < n ∧ 1 ≤ f.2 ∧ f.2 ≤ 3)
+    (u : Nat) (hu : u < 2 ^ n) :
+    ∃ L, qubitOperatorSparse (some n) a = some (2 ^ n, L) ∧
+      (matvec a x).getD (beIndex n u) 0 =
+        sumTo (2 ^ n) (fun s => getL L (beIndex n u) (beIndex n s) * x.getD (beIndex n s) 0) := by
+  obtain ⟨L, hL, _⟩ := qubitSparse_get n a hc ha 0 u (Nat.pow_pos (by omega)) hu
+  refine ⟨L, hL, ?_⟩
+  rw [matvec_sound n a x hx ha u hu]
+  apply sumN_congr
+  intro s hs
+  obtain ⟨L', hL', hg⟩ := qubitSparse_get n a hc ha s u hs hu
+  rw [hL] at hL'
+  simp only [Option.some.injEq, Prod.mk.injEq, true_and] at hL'
+  subst hL'
+  rw [hg]
+
+/-- **`parallel_matvec_matrix`** — `ParallelLinearQubitOperator._matvec` against the Spec for ALL inputs and
+EVERY completion order of the worker pool: for every process count `k`, every delivery order `perm` that is
+a permutation of the group indices, every vector of length `2^n` and every basis state `u < 2^n`, the
+entry `beIndex n u` of the result is `Σ_{s < 2^n} ⟨u|A|s⟩ · x[beIndex n s]` for the undivided operator. -/
+theorem parallel_matvec_matrix (n k : Nat) (a : List (List (Nat × Nat) × GQ)) (x : List GQ)
+    (hx : x.length = 2 ^ n)
+    (ha : ∀ e ∈ a, e.1.Pairwise (fun f g => f.1 < g.1) ∧ ∀ f ∈ e.1, f.1 < n ∧ 1 ≤ f.2 ∧ f.2 ≤ 3)
+    (perm : List Nat) (hperm : perm.Perm (List.range (operatorGroups k a).length))
+    (u : Nat) (hu : u < 2 ^ n) :
+    (parallelMatvec k a x perm).getD (beIndex n u) 0 =
+      sumTo (2 ^ n) (fun s =>
+        (a.foldl (fun acc e => acc + e.2 * Spec.C07.ampP e.1 s u) 0) * x.getD (beIndex n s) 0) := by
+  rw [parallel_any_order k a x perm _ hperm, parallel_matvec_sound n k a x hx ha]
+  exact matvec_sound n a x hx ha u hu
+
+/-- `get_linear_qubit_operator_diagonal` is the diagonal of `qubit_operator_sparse`: with `L` the entry
+list of the sparse matrix, `diagonal[i] = L[i, i]` for every index `i = beIndex n s`, `s < 2^n`. -/
+theorem diagonal_eq_sparse_diagonal (n : Nat) (a : List (List (Nat × Nat) × GQ)) (hc : countQubitsQubit a ≤ n)
+    (ha : ∀ e ∈ a, e.1.Pairwise (fun f g => f.1 < g.1) ∧ ∀ f ∈ e.1, f.1 < n ∧ 1 ≤ f.2 ∧ f.2 ≤ 3)
+    (s : Nat) (hs : s < 2 ^ n) :
+    ∃ v L, linearDiagonal (some n) a = some v ∧ qubitOperatorSparse (some n) a = some (2 ^ n, L) ∧
+      v.getD (beIndex n s) 0 = getL L (beIndex n s) (beIndex n s) := by
+  obtain ⟨v, hv, _, hd⟩ := diagonal_sound n a hc ha s hs
+  obtain ⟨L, hL, hg⟩ := qubit_sparse_sound n a hc ha s s hs hs
+  exact ⟨v, L, hv, hL, by rw [hd, hg]⟩
 
 end OFV.C06
